@@ -302,6 +302,89 @@ def probe_backward(ctx, g):
     return n
 
 
+COMPOSED = ("nonherm-dense", "nonherm-mvrmv", "nonherm-mvonly", "diff", "diff-mvonly", "sum", "scaled", "matmul", "adjoint", "adjoint-of-diff")
+
+
+def composed_table(ctx, g):
+    """non-Hermitian operators and operators built through the public algebra (+, -, scalar *, matmul, .H) from two leaves:
+    the backward pass solves with the ADJOINT operator, which the Hermitian operators of the main table never exercise"""
+    n = 0
+    nn_, nc = 4, 2
+    eye = torch.eye(nn_, dtype=DT)
+    for kind in COMPOSED:
+        for fm, bm in (("custom_exactsolve", None), ("bicgstab", "bicgstab"), ("exactsolve", None)):
+            for mode in ("none", "E"):
+                n += 1
+                ctx.case(key=("composed", kind, fm, bm, mode))
+                P1 = (4.0 * eye + 0.5 * torch.randn(nn_, nn_, generator=g, dtype=DT)).requires_grad_()
+                P2 = (0.3 * torch.randn(nn_, nn_, generator=g, dtype=DT)).requires_grad_()
+                B = torch.randn(nn_, nc, generator=g, dtype=DT).requires_grad_()
+                E = (-(torch.rand(nc, generator=g, dtype=DT) * 0.5 + 0.2)).requires_grad_() if mode == "E" else None
+                with warnings.catch_warnings():
+                    warnings.simplefilter("ignore")
+                    K, S = LinearOperator.m(P1, is_hermitian=False), MvRmv(P2, False)
+                    if kind == "nonherm-dense":
+                        A, Ad = K, P1
+                    elif kind == "nonherm-mvrmv":
+                        A, Ad = MvRmv(P1, False), P1
+                    elif kind == "nonherm-mvonly":
+                        A, Ad = MvOnly(P1, False), P1
+                    elif kind == "diff":
+                        A, Ad = K - S, P1 - P2
+                    elif kind == "diff-mvonly":
+                        A, Ad = MvOnly(P1, False) - MvOnly(P2, False), P1 - P2
+                    elif kind == "sum":
+                        A, Ad = K + S, P1 + P2
+                    elif kind == "scaled":
+                        A, Ad = S * 2.5 + K, 2.5 * P2 + P1
+                    elif kind == "matmul":
+                        A, Ad = K.matmul(MvRmv(eye + P2, False)), P1 @ (eye + P2)
+                    elif kind == "adjoint":
+                        A, Ad = MvRmv(P1, False).H, P1.T
+                    else:
+                        A, Ad = (K - S).H, (P1 - P2).T
+                leaves = [P1, P2, B] + ([E] if E is not None else [])
+                names = ["P1", "P2", "B"] + (["E"] if E is not None else [])
+                why = None
+                try:
+                    kw = fwd_opts(fm)
+                    if bm is not None:
+                        kw["bck_options"] = dict(fwd_opts(bm), method=bm)
+                    with warnings.catch_warnings():
+                        warnings.simplefilter("ignore")
+                        X = xitorch.linalg.solve(A, B, E, method=fm, **kw)
+                        Xr = dense_solution(Ad, B, E, None)
+                        W = torch.randn(Xr.shape, generator=g, dtype=DT)
+                        g1 = torch.autograd.grad((X * W).sum(), leaves, create_graph=True, allow_unused=True)
+                        r1 = torch.autograd.grad((Xr * W).sum(), leaves, create_graph=True, allow_unused=True)
+                        if not torch.allclose(X, Xr, atol=1e-8, rtol=1e-8):
+                            why = "solution differs from the dense reference by %.2e" % float((X - Xr).abs().max())
+                        for nm, a, b, lf in zip(names, g1, r1, leaves):
+                            if why:
+                                break
+                            a0 = a if a is not None else torch.zeros_like(lf)
+                            b0 = b if b is not None else torch.zeros_like(lf)
+                            if not torch.allclose(a0, b0, atol=1e-7, rtol=1e-7):
+                                why = "first-order gradient w.r.t. %s differs from the dense reference by %.2e" % (nm, float((a0 - b0).abs().max()))
+                        if why is None:
+                            s1 = sum((a ** 2).sum() for a in g1 if a is not None)
+                            s2 = sum((b ** 2).sum() for b in r1 if b is not None)
+                            h1 = torch.autograd.grad(s1, leaves, allow_unused=True)
+                            h2 = torch.autograd.grad(s2, leaves, allow_unused=True)
+                            for nm, a, b, lf in zip(names, h1, h2, leaves):
+                                a0 = a if a is not None else torch.zeros_like(lf)
+                                b0 = b if b is not None else torch.zeros_like(lf)
+                                if not torch.allclose(a0, b0, atol=1e-6 * (1 + float(b0.abs().max())), rtol=1e-6):
+                                    why = "second-order gradient w.r.t. %s differs from the dense reference by %.2e" % (nm, float((a0 - b0).abs().max()))
+                                    break
+                except Exception as ex_:
+                    why = "raised %s: %s" % (type(ex_).__name__, str(ex_)[:160])
+                if why:
+                    ctx.violation("solvegrad/composed/%s" % kind, "solve(%s, backward %s) mode %s on the %s operator built from two leaves: %s" % (fm, bm or "default", mode, kind, why),
+                                  {"kind": kind, "fm": fm, "bm": bm, "mode": mode})
+    return n
+
+
 def run(ctx):
     thorough = ctx.tier == "thorough"
     rng = random.Random(ctx.seed)
@@ -309,6 +392,7 @@ def run(ctx):
     insts = tlc_instances(ctx, "solve")
     ne = exact_replay(ctx, insts, rng, len(insts) if thorough else 60)
     nt = table(ctx, thorough, g)
+    nt += composed_table(ctx, g)
     with warnings.catch_warnings():
         warnings.simplefilter("ignore")
         npb = probe_backward(ctx, g)
